@@ -111,6 +111,8 @@ func (m *Machine) intercept(fn *ssa.Function, args []Val, caller *frame, site ss
 			m.res.Notes["lock:"+name] = "called"
 			return nil
 		}
+	case "(*sync.Map).Load", "(*sync.Map).Store", "(*sync.Map).LoadOrStore", "(*sync.Map).Delete", "(*sync.Map).LoadAndDelete", "(*sync.Map).Range", "(*sync.Map).Swap", "(*sync.Map).CompareAndSwap":
+		return func() Val { return m.syncMapOp(fn.Name(), args, caller) }
 	case "(*sync.Once).Do":
 		return func() Val { m.unmodelled("sync.Once.Do"); return nil }
 	case "(*github.com/deckarep/golang-set.threadUnsafeSet).Iter":
@@ -234,6 +236,10 @@ func (m *Machine) intercept(fn *ssa.Function, args []Val, caller *frame, site ss
 			}
 			return FloatV{r, 64}
 		}
+	case "math.Max":
+		return func() Val { return FloatV{math.Max(args[0].(FloatV).F, args[1].(FloatV).F), 64} }
+	case "math.Min":
+		return func() Val { return FloatV{math.Min(args[0].(FloatV).F, args[1].(FloatV).F), 64} }
 	case "math.Pow":
 		return func() Val { return FloatV{math.Pow(args[0].(FloatV).F, args[1].(FloatV).F), 64} }
 	case "math.IsNaN":
@@ -588,6 +594,12 @@ func (m *Machine) drawSummary(n *Term) Val {
 	}
 	m.reads++
 	m.readLens = append(m.readLens, 4)
+	if n.IsConst() && n.C <= 256 {
+		if m.varBound == nil {
+			m.varBound = map[string]int{}
+		}
+		m.varBound[d.Name] = int(n.C)
+	}
 	m.assume(Cmp("bvult", d, n))
 	return d
 }
@@ -652,6 +664,36 @@ func (m *Machine) nativeArg(i Iface) (interface{}, bool, bool) {
 		return nil, false, taint
 	case Iface:
 		return m.nativeArg(v)
+	case SliceV:
+		// slices of strings / integers print like their native counterparts
+		if v.Len == 0 {
+			if v.A == nil {
+				return []string(nil), true, taint
+			}
+			return []string{}, true, taint
+		}
+		switch v.A.E[v.Off].V.(type) {
+		case *StrV:
+			out := make([]string, v.Len)
+			for k := range out {
+				s := v.A.E[v.Off+k].V.(*StrV)
+				if !s.Conc() {
+					return nil, false, taint
+				}
+				out[k] = s.S
+			}
+			return out, true, taint
+		case *Term:
+			out := make([]uint64, v.Len)
+			for k := range out {
+				t := v.A.E[v.Off+k].V.(*Term)
+				if !t.IsConst() {
+					return nil, false, taint
+				}
+				out[k] = t.C
+			}
+			return out, true, taint
+		}
 	}
 	return showVal(i.V), !taint, taint
 }
@@ -1006,13 +1048,13 @@ func (m *Machine) unicodeIntercept(name string, args []Val) handler {
 			return BV(32, f(t.C))
 		}
 	}
-	v := singleByteVar(t)
+	v := m.singleByteVar(t)
 	if v == nil {
 		return func() Val { m.unmodelled("%s on a symbolic rune", name); return nil }
 	}
 	return func() Val {
 		mod := Model{}
-		n := 1 << uint(v.W)
+		n := m.domSize(v)
 		if outW == 0 {
 			r := tFalse
 			for i := 0; i < n; i++ {
@@ -1049,4 +1091,77 @@ func (m *Machine) caseSym(s *StrV, upper bool) Val {
 		}
 	}
 	return strFromBytes(out, s.T)
+}
+
+// syncMapOp models sync.Map as an ordinary map attached to the receiver's cell
+// (single logical thread). Writes count as writes to the object that holds the
+// sync.Map (a package-level one is shared state).
+func (m *Machine) syncMapOp(op string, args []Val, caller *frame) Val {
+	p := args[0].(Ptr)
+	if p.C == nil {
+		m.rtPanic("nil *sync.Map")
+	}
+	if m.syncMaps == nil {
+		m.syncMaps = map[*Cell]*MapObj{}
+	}
+	mo := m.syncMaps[p.C]
+	if mo == nil {
+		mo = &MapObj{O: p.C.O, idx: map[string]*mapEnt{}}
+		if p.C.O != nil && p.C.O.epoch == 0 {
+			// contents are per path (the side table is reset), the owner is shared
+			mo.O = &Obj{id: p.C.O.id, epoch: 1, site: p.C.O.site}
+		}
+		m.syncMaps[p.C] = mo
+	}
+	write := func(what string) {
+		if p.C.O != nil {
+			m.noteWrite(p.C.O, "sync.Map."+what)
+			if p.C.O.epoch == 0 && m.trackWrites {
+				// noteWrite already recorded it
+			}
+		}
+	}
+	switch op {
+	case "Load":
+		if e := m.mapFind(mo, args[1]); e != nil {
+			return TupleV{e.V, tTrue}
+		}
+		return TupleV{Iface{}, tFalse}
+	case "Store":
+		write("Store")
+		m.mapSet(mo, args[1], args[2], "sync.Map.Store")
+		return nil
+	case "LoadOrStore":
+		if e := m.mapFind(mo, args[1]); e != nil {
+			return TupleV{e.V, tTrue}
+		}
+		write("LoadOrStore")
+		m.mapSet(mo, args[1], args[2], "sync.Map.LoadOrStore")
+		return TupleV{args[2], tFalse}
+	case "Delete":
+		write("Delete")
+		m.mapDelete(mo, args[1], "sync.Map.Delete")
+		return nil
+	case "LoadAndDelete":
+		if e := m.mapFind(mo, args[1]); e != nil {
+			v := e.V
+			write("LoadAndDelete")
+			m.mapDelete(mo, args[1], "sync.Map.LoadAndDelete")
+			return TupleV{v, tTrue}
+		}
+		return TupleV{Iface{}, tFalse}
+	case "Range":
+		for _, e := range append([]*mapEnt(nil), mo.ents...) {
+			if e.deleted {
+				continue
+			}
+			r := m.callValue(args[1], []Val{e.K, e.V}, caller, nil).(*Term)
+			if !m.branch(r, "sync.Map.Range continue") {
+				break
+			}
+		}
+		return nil
+	}
+	m.unmodelled("sync.Map.%s", op)
+	return nil
 }
